@@ -8,28 +8,31 @@ namespace verif {
 enum TrackClass { TC_PAYLOAD = 0, TC_CALLBACK = 1, TC_KEY = 2, TC_OTHER = 3, TC_COUNT = 4 };
 
 struct Ledger {
-	struct Rec { int cls; int id; bool moved; };
+	struct Rec { int cls; int id; bool moved; int copyDepth; };
 	std::unordered_map<const void *, Rec> live;
 	long constructed = 0, destroyed = 0, copies = 0, moves = 0;
 	std::vector<std::string> errors;
+	std::function<void(int cls, int id, bool movedFrom, int copyDepth)> onDeath;   // observer for destruction times
 
-	void reset() { live.clear(); errors.clear(); constructed = destroyed = copies = moves = 0; }
+	void reset() { live.clear(); errors.clear(); constructed = destroyed = copies = moves = 0; onDeath = nullptr; }
 
-	void born(const void * p, int cls, int id, bool moved = false) {
+	void born(const void * p, int cls, int id, bool moved = false, int copyDepth = 0) {
 		++constructed;
 		auto it = live.find(p);
 		if(it != live.end()) {
 			errors.push_back(fmt("object constructed over a live object (class %d id %d over id %d)", cls, id, it->second.id));
-			it->second = Rec{cls, id, moved};
+			it->second = Rec{cls, id, moved, copyDepth};
 			return;
 		}
-		live.emplace(p, Rec{cls, id, moved});
+		live.emplace(p, Rec{cls, id, moved, copyDepth});
 	}
 	void died(const void * p, int cls, int id) {
 		++destroyed;
 		auto it = live.find(p);
 		if(it == live.end()) { errors.push_back(fmt("destruction of an object that is not alive (class %d id %d): destroyed twice or never constructed", cls, id)); return; }
+		bool mv = it->second.moved; int cd = it->second.copyDepth;
 		live.erase(it);
+		if(onDeath) onDeath(cls, id, mv, cd);
 	}
 	bool touch(const void * p, int cls, int id) {
 		auto it = live.find(p);
@@ -64,24 +67,25 @@ template <int Cls>
 struct TrackedBase {
 	int id;
 	bool movedFrom;
-	explicit TrackedBase(int id_ = 0) : id(id_), movedFrom(false) { ledger().born(this, Cls, id); }
-	TrackedBase(const TrackedBase & o) : id(o.id), movedFrom(o.movedFrom) {
-		ledger().touch(&o, Cls, o.id); ++ledger().copies; ledger().born(this, Cls, id, movedFrom);
+	int copyDepth;     // 0 for the original and everything reached from it by moves; +1 per copy
+	explicit TrackedBase(int id_ = 0) : id(id_), movedFrom(false), copyDepth(0) { ledger().born(this, Cls, id); }
+	TrackedBase(const TrackedBase & o) : id(o.id), movedFrom(o.movedFrom), copyDepth(o.copyDepth + 1) {
+		ledger().touch(&o, Cls, o.id); ++ledger().copies; ledger().born(this, Cls, id, movedFrom, copyDepth);
 	}
-	TrackedBase(TrackedBase && o) noexcept : id(o.id), movedFrom(o.movedFrom) {
-		ledger().touch(&o, Cls, o.id); ++ledger().moves; ledger().born(this, Cls, id, movedFrom);
+	TrackedBase(TrackedBase && o) noexcept : id(o.id), movedFrom(o.movedFrom), copyDepth(o.copyDepth) {
+		ledger().touch(&o, Cls, o.id); ++ledger().moves; ledger().born(this, Cls, id, movedFrom, copyDepth);
 		o.movedFrom = true; ledger().setMoved(&o);
 	}
 	TrackedBase & operator=(const TrackedBase & o) {
 		ledger().touch(&o, Cls, o.id); ledger().touch(this, Cls, id);
-		if(this != &o) { ++ledger().copies; id = o.id; movedFrom = o.movedFrom; auto it = ledger().live.find(this); if(it != ledger().live.end()) { it->second.id = id; it->second.moved = movedFrom; } }
+		if(this != &o) { ++ledger().copies; id = o.id; movedFrom = o.movedFrom; copyDepth = o.copyDepth + 1; auto it = ledger().live.find(this); if(it != ledger().live.end()) { it->second.id = id; it->second.moved = movedFrom; it->second.copyDepth = copyDepth; } }
 		return *this;
 	}
 	TrackedBase & operator=(TrackedBase && o) noexcept {
 		ledger().touch(&o, Cls, o.id); ledger().touch(this, Cls, id);
 		if(this != &o) {
-			++ledger().moves; id = o.id; movedFrom = o.movedFrom;
-			auto it = ledger().live.find(this); if(it != ledger().live.end()) { it->second.id = id; it->second.moved = movedFrom; }
+			++ledger().moves; id = o.id; movedFrom = o.movedFrom; copyDepth = o.copyDepth;
+			auto it = ledger().live.find(this); if(it != ledger().live.end()) { it->second.id = id; it->second.moved = movedFrom; it->second.copyDepth = copyDepth; }
 			o.movedFrom = true; ledger().setMoved(&o);
 		}
 		return *this;
